@@ -101,6 +101,12 @@ def layout_product_cases(rulesets, group=16):
     return out
 
 
+def ruleopts_cases():
+    from vf.props import c05
+
+    return [{"k": "ruleopts", "rule": code, "name": name, "opts": opts} for code, name, opts in c05.rule_option_assignments()]
+
+
 def raw_strings(tier, ops="WKME"):
     base = corpus.G(1) if tier == "quick" else corpus.G(2)
     ss = set(corpus.D(base, 1, ops)) | set(GLUE)
@@ -193,6 +199,11 @@ def expand(case):
                 if "gap" in case and case["gap"] != gi:
                     continue
                 yield {"k": "fxk", "rs": case["rs"], "ids": [p], "gap": gi}, lnt, t[:e] + " -- c\n" + t[e:]
+    elif k == "ruleopts":
+        # every assignment of <= 2 enumerated options of one rule x that rule's YAML strings + operator list (see c05)
+        from vf.props import c05
+
+        yield from c05.ruleopts_items(case)
     elif k == "yaml":
         if not _Y:
             for y in yaml_inputs():
